@@ -138,12 +138,65 @@ def case(rname, roi, kinds, cats, explicit):
     return None
 
 
+def cross_dataset(R, tier):
+    """a region drawn in the pixel frame of one dataset and evaluated on a dataset linked to it (other rank, other axis numbering):
+    an element of the other dataset is selected exactly when its linked position lies in the region"""
+    from glue.core import Data, DataCollection
+    from glue.core.link_helpers import LinkSame
+    from glue.core.subset import roi_to_subset_state
+    configs = {
+        # name: (shape of A, shape of B, [(A axis, B axis)] linked pixel axes, (x axis of A, y axis of A))
+        'image->cube': ((5, 6), (3, 5, 6), [(0, 1), (1, 2)], (1, 0)),
+        'image->cube-transposed': ((5, 6), (6, 3, 5), [(0, 2), (1, 0)], (1, 0)),
+        'cube->image': ((3, 5, 6), (5, 6), [(1, 0), (2, 1)], (2, 1)),
+        'image->image-transposed': ((5, 6), (6, 5), [(0, 1), (1, 0)], (1, 0)),
+        'image->same-frame': ((5, 6), (5, 6), [(0, 0), (1, 1)], (1, 0)),
+    }
+    for cname, (sa, sb, pairs, (xa, ya)) in configs.items():
+        for rname, roi in rois():
+            if rname.startswith(('xrange', 'yrange')) and tier == 'quick' and rname not in ('xrange(0.4,2.6)', 'yrange(0.4,2.6)'):
+                continue
+            A = Data(label='A', v=np.zeros(sa))
+            B = Data(label='B', w=np.zeros(sb))
+            dc = DataCollection([A, B])
+            for a, b in pairs:
+                dc.add_link(LinkSame(A.pixel_component_ids[a], B.pixel_component_ids[b]))
+            try:
+                state = roi_to_subset_state(roi, x_att=A.pixel_component_ids[xa], y_att=A.pixel_component_ids[ya])
+            except NotImplementedError:
+                continue
+            amap = dict(pairs)
+            grids = np.indices(sb).astype(float)
+            px, py = grids[amap[xa]], grids[amap[ya]]
+            exp = contains(roi, px, py)
+            skip = near_boundary(roi, px.ravel(), py.ravel()).reshape(sb)
+            for target, tx, ty, shape in ((B, px, py, sb),):
+                try:
+                    got = np.asarray(target.get_mask(state), dtype=bool)
+                    err = None
+                    if got.shape != shape:
+                        err = ('shape', "mask shape %r, dataset shape %r" % (got.shape, shape))
+                    else:
+                        bad = np.argwhere((got != exp) & ~skip)
+                        if len(bad):
+                            i = tuple(bad[0])
+                            err = ('selection', "element %r of B (linked position x=%g, y=%g) is %sselected, the region %s it (%d elements differ)"
+                                   % (i, px[i], py[i], '' if got[i] else 'not ', 'contains' if exp[i] else 'does not contain', len(bad)))
+                except Exception as e:
+                    err = ('exception:%s' % type(e).__name__, "%s: %s" % (type(e).__name__, e))
+                R.count((cname, rname), 'region-on-linked-dataset')
+                if err:
+                    R.fail("roi2state|linked-dataset|%s|%s|%s" % (cname, rname.split('(')[0], err[0]),
+                           "region %s drawn on the pixel axes (%d, %d) of A %r, evaluated on B %r linked by %r: %s" % (rname, xa, ya, sa, sb, pairs, err[1]), None)
+
+
 def run(tier, seed, R):
     rng = random.Random(seed)
     R.rule = ("every region kind (x/y ranges at 8 positions relative to the integer category positions incl. negative and reversed bounds, rectangles, rotated rectangle, "
               "circles, ellipse, open/closed/concave polygons, annulus) x 4 axis-kind combinations x 4 category sets (1-5 categories, sorted and explicitly ordered) on a dataset "
               "with rows at every integer and half-integer plotted position (+NaN): mask of roi_to_subset_state(...) vs region.contains(plotted x, plotted y), rows within 1e-6 "
-              "of the boundary excluded. non-trivial = distinct case whose expected selection is neither empty nor everything")
+              "of the boundary excluded; plus every region drawn on the pixel axes of one dataset and evaluated on a linked dataset of another rank / axis numbering (5 linkings). "
+              "non-trivial = distinct case whose expected selection is neither empty nor everything")
     R.exhaustive = True
     all_rois = rois() + (rois(rng, 60)[:60] if tier != 'quick' else [])
     for (rname, roi), kinds, (ci, cats), explicit in itertools.product(all_rois, itertools.product(('num', 'cat'), repeat=2), enumerate(CATSETS), (False, True)):
@@ -154,6 +207,7 @@ def run(tier, seed, R):
             R.fail("roi2state|%s|%s-%s|%s" % (rk, kinds[0], kinds[1], r[0]),
                    "region %s on axes (%s, %s), categories %r (%s order): %s" % (rname, kinds[0], kinds[1], cats, 'explicit' if explicit else 'sorted', r[1]),
                    "from bounded.c09_roi2state import replay\nsys.exit(replay(%r, %r, %d, %r))\n" % (rname, kinds, ci, explicit))
+    cross_dataset(R, tier)
     R.samples.append({"case": "polygon-open on axes (cat, num) with categories ['c','a','b'] in explicit order vs region.contains(code, value)"})
 
 
